@@ -14,7 +14,7 @@ NOTES = {
 }
 
 def base_of(sid):
-    if "-r4" in sid:
+    if "-r4" in sid or "-r5" in sid:
         return "19b16c8"
     if "-r3" in sid:
         return "2c7e47f"
